@@ -16,6 +16,8 @@ enum Case {
     Pair { cid: Cid, n: usize, s1: usize, s2: usize },
     /// X held in a static array SeqArray<A, N, 3>
     Array { cid: Cid, n: usize },
+    /// both operands are windows of the SAME buffer: every pair of windows of length n (and n-1, n+1) of one parent
+    Alias { cid: Cid, n: usize },
 }
 
 const ARRAY_NS: [usize; 14] = [0, 1, 2, 3, 4, 8, 10, 12, 16, 21, 24, 32, 33, 64];
@@ -73,12 +75,16 @@ fn gen(t: Tier, _seed: u64, emit: &mut dyn FnMut(Case)) {
                 emit(Case::Array { cid, n });
             }
         }
+        let spw = 64 / cid.bits();
+        for n in [0usize, 1, 2, 3, spw - 1, spw, spw + 1] {
+            emit(Case::Alias { cid, n });
+        }
     }
 }
 
 fn run(c: &Case, out: &mut Out) {
     match c {
-        Case::Pair { cid, .. } | Case::Array { cid, .. } => bsvk::dispatch_k!(*cid, run_g(c, out)),
+        Case::Pair { cid, .. } | Case::Array { cid, .. } | Case::Alias { cid, .. } => bsvk::dispatch_k!(*cid, run_g(c, out)),
     }
 }
 
@@ -293,6 +299,45 @@ fn hash_all<A: SxK>(x: &Side<A>, other_view: &SeqSlice<A>, out: &mut Out) {
         }
         (base, v)
     });
+    // containers of sequences hash through Hash::hash_slice / tuple impls: same content, same stream
+    let r2 = out.catch(|| {
+        let a = vec![x.fresh.clone(), x.headed.clone()];
+        let b = vec![x.headed.clone(), x.fresh.clone()];
+        let c: Vec<&SeqSlice<A>> = vec![x.view, other_view];
+        let t1 = (x.fresh.clone(), 7u8, x.headed.clone());
+        let t2 = (x.headed.clone(), 7u8, x.fresh.clone());
+        let mut bad: Vec<&'static str> = Vec::new();
+        if rec::stream(&a).bytes != rec::stream(&b).bytes || rec::stream(&a[..]).bytes != rec::stream(&b[..]).bytes {
+            bad.push("Vec<Seq>");
+        }
+        if rec::stream(&a).bytes != rec::stream(&c).bytes {
+            bad.push("Vec<&SeqSlice> vs Vec<Seq>");
+        }
+        if rec::stream(&t1).bytes != rec::stream(&t2).bytes {
+            bad.push("(Seq, u8, Seq)");
+        }
+        for sid in Sid::ALL {
+            if let Some(api) = kmer_api::<A>(sid, n) {
+                if let Ok(xv) = api.try_from_slice(x.view) {
+                    if api.hash_pair(xv, xv).bytes != rec::stream(&a).bytes {
+                        bad.push("[Kmer; 2] vs Vec<Seq>");
+                    }
+                }
+            }
+        }
+        // Borrow, AsRef and Deref of an owned sequence are the same slice
+        let b1: &SeqSlice<A> = std::borrow::Borrow::borrow(&x.headed);
+        let b2: &SeqSlice<A> = x.headed.as_ref();
+        let b3: &SeqSlice<A> = &x.headed;
+        let href: &Seq<A> = &x.headed;
+        let b4: &SeqSlice<A> = std::borrow::Borrow::borrow(&href);
+        let b5: &SeqSlice<A> = x.view.as_ref();
+        if !(matches(b1, x.model) && matches(b2, x.model) && matches(b3, x.model) && matches(b4, x.model) && matches(b5, x.model)) {
+            bad.push("Borrow/AsRef/Deref disagree");
+        }
+        bad
+    });
+    out.check(matches!(&r2, Ok(b) if b.is_empty()), || (format!("{cn}/hash/containers-of-equal-sequences-hash-differently"), format!("X = {}: {:?}", show_cut(x.model), r2)));
     match r {
         Err(m) => {
             out.checks += 1;
@@ -411,6 +456,54 @@ fn run_g<A: SxK>(c: &Case, out: &mut Out) {
                 }
                 out.observe(&(A::CID, n, *kind));
             }
+        }
+        Case::Alias { n, .. } => {
+            // a parent over two symbols only, so that many windows have equal content
+            let al = alphabet::<A>();
+            let plen = 2 * (64 / A::BITS as usize) + *n + 3;
+            let pm: Vec<A> = bg(plen, 2, 102, out.seed).iter().map(|&i| al[i as usize * (al.len() - 1)]).collect();
+            let parent = build(&pm);
+            let headed = owned_headed(&pm, 3);
+            for a in 0..=plen - *n {
+                for dn in [0usize, 1] {
+                    for b in 0..=plen.saturating_sub(*n + dn) {
+                        out.units += 1;
+                        let (xm, ym) = (&pm[a..a + *n], &pm[b..b + *n + dn]);
+                        let want = codes(xm) == codes(ym);
+                        out.stage = "== between windows of one buffer";
+                        let r = out.catch(|| {
+                            let (xs, ys) = (&parent[a..a + *n], &parent[b..b + *n + dn]);
+                            let (hx, hy) = (&headed[a..a + *n], &headed[b..b + *n + dn]);
+                            vec![
+                                ("SeqSlice==SeqSlice", *xs == *ys),
+                                ("&SeqSlice==&SeqSlice", xs == ys),
+                                ("&SeqSlice==SeqSlice", xs == *ys),
+                                ("SeqSlice==Seq(parent)", *xs == parent && a == 0 && *n == plen || *xs == *ys),
+                                ("slices of a headed parent", *hx == *hy),
+                                ("slice of parent vs slice of headed copy", *xs == *hy),
+                                ("!(SeqSlice!=SeqSlice)", !(*xs != *ys)),
+                                ("SeqSlice==&str", *xs == show(ym).as_str()),
+                                ("hash streams equal", (rec::stream(xs).bytes == rec::stream(ys).bytes) || !want),
+                            ]
+                        });
+                        match r {
+                            Err(msg) => out.violation(format!("{cn}/eq-alias/panics"), msg),
+                            Ok(list) => {
+                                for (name, got) in list {
+                                    let w = if name == "hash streams equal" { true } else { want };
+                                    out.check(got == w, || {
+                                        (
+                                            format!("{cn}/eq-alias/{name}/{}", if w { "false-negative" } else { "false-positive" }),
+                                            format!("windows [{a}..{}] and [{b}..{}] of one buffer {}: {name} = {got}, contents {} vs {}", a + *n, b + *n + dn, show_cut(&pm), show_cut(xm), show_cut(ym)),
+                                        )
+                                    });
+                                }
+                            }
+                        }
+                    }
+                }
+            }
+            out.observe(&(A::CID, *n, 254u8));
         }
         Case::Array { n, .. } => {
             let xm: Vec<A> = syms::<A>(&bg(*n, m, 101, out.seed));
